@@ -7,9 +7,9 @@ DEFAULT = dict(FixRestore='TRUE', FixPublish='TRUE', FixMonotone='TRUE', FixRead
                DevNoWait='FALSE', DevCommitBeforeIndex='FALSE', DevRestoreKeepsOffset='FALSE', DevOrphanNotSkipped='FALSE',
                DevOrphanAlwaysSkipped='FALSE', DevNoFlushOnAck='FALSE', DevTolerateLostIdx='FALSE')
 
-def gen(f, P='{"p1","p2"}', K=2, sh='ShOk1', faults=2, crashes=1, idxloss=0, inline=0, interval=1, mbs='{80}', invs=CORE, view=True, **over):
+def gen(f, P='{"p1","p2"}', K=2, sh='ShOk1', faults=2, crashes=1, idxloss=0, sync='TRUE', inline=0, interval=1, mbs='{80}', invs=CORE, view=True, **over):
     c = dict(DEFAULT); c.update(over)
-    s = "CONSTANTS\n Producers = %s\n K = %s\n Shapes <- %s\n MaxFaults = %s\n MaxCrashes = %s\n MaxIdxLoss = %s\n InlineAt = %s\n Interval = %s\n MBs = %s\n" % (P, K, sh, faults, crashes, idxloss, inline, interval, mbs)
+    s = "CONSTANTS\n Producers = %s\n K = %s\n Shapes <- %s\n MaxFaults = %s\n MaxCrashes = %s\n MaxIdxLoss = %s\n SyncFlush = %s\n InlineAt = %s\n Interval = %s\n MBs = %s\n" % (P, K, sh, faults, crashes, idxloss, sync, inline, interval, mbs)
     for k, v in c.items():
         s += " %s = %s\n" % (k, v)
     s += "INIT Init\nNEXT Next\n" + ("VIEW View\n" if view else "") + "CHECK_DEADLOCK FALSE\nINVARIANTS %s\n" % invs
@@ -52,6 +52,9 @@ gen('Sim_Log_b.cfg', P='{"p1","p2","p3"}', K=3, sh='ShOk12', faults=2, crashes=1
 gen('Sim_Log_c.cfg', P='{"p1","p2"}', K=4, sh='ShOk12', faults=2, crashes=1, inline=3, interval=3, invs="EmitSched " + CORE, view=False)
 gen('MC_Log_idxloss_quick.cfg', K=1, P='{"p1","p2","p3"}', sh='ShOk1', faults=0, crashes=1, idxloss=1, interval=2, mbs='{9}', invs=CORE + " " + READ)
 gen('Sim_Log_e.cfg', P='{"p1","p2","p3","p4"}', K=2, sh='ShOk12', faults=1, crashes=1, idxloss=1, inline=0, interval=3, invs="EmitSched " + CORE, view=False)
+ASYNC = "C02_Unique C02_Monotone C02_BaseIsStored C05_Monotone C05_NotAhead"
+gen('MC_Log_async_quick.cfg', K=1, P='{"p1","p2","p3"}', sh='ShOk12', faults=1, crashes=0, sync='FALSE', inline=2, interval=2, mbs='{0,9,80,200}', invs=ASYNC + " C03_FetchExact C04_Progress")
+gen('Sim_Log_f.cfg', P='{"p1","p2","p3"}', K=3, sh='ShOk12', faults=1, crashes=0, sync='FALSE', inline=2, interval=2, invs="EmitSched " + ASYNC, view=False)
 gen('Sim_Log_d.cfg', P='{"p1","p2","p3","p4","p5","p6","p7","p8"}', K=1, sh='ShOk12', faults=0, crashes=0, inline=0, interval=2, invs="EmitSched " + CORE, view=False)
 import json
 json.dump({k: v[1] for k, v in DEV.items()}, open('deviations.json', 'w'), indent=1)
